@@ -334,6 +334,7 @@ func (en *DefaultEngine) runFirst(ctx context.Context) (bool, error) {
 	}
 	logg.DebugCtxf(ctx, "start pre-VM check")
 	depth := en.st.Depth()
+	idx := en.st.SizeIdx
 	en.ca.Push()
 	rs := resource.NewMenuResource()
 	rs.AddLocalFunc("_first", en.first)
@@ -344,6 +345,8 @@ func (en *DefaultEngine) runFirst(ctx context.Context) (bool, error) {
 			en.st.Up()
 			en.ca.Pop()
 		}
+		// entering and leaving _first is no navigation: the page the session was on stays current
+		en.st.SizeIdx = idx
 	}()
 	defer en.st.ResetFlag(state.FLAG_TERMINATE)
 	defer en.st.ResetFlag(state.FLAG_DIRTY)
